@@ -8,7 +8,7 @@ use crate::util::*;
 use crate::wraps::*;
 
 /// KDF cost of a password-wrapped body stays within what the check is willing to execute
-fn pw_budget_ok(ver: u8, body: &[u8]) -> bool {
+pub fn pw_budget_ok(ver: u8, body: &[u8]) -> bool {
     if ver % 2 == 1 {
         body.len() < 36 || u32::from_be_bytes(body[32..36].try_into().unwrap()) <= 200_000
     } else {
